@@ -403,16 +403,17 @@ theorem kernelX1_inplace_eq_spec (g v k rk buf : List Nat)
 end SMGo.Proofs.ISAVal
 
 /-
-  NOT PROVED: the same statement for the listings of cryptoBlockAsmX2 / X4 / X8 / X16 (tests only:
-  SMGo/Proofs/ISAValTests.lean).  What exists and carries over unchanged: the step lemmas (ISAValStep), the lane
-  algebra (ISAValLanes), the run/decode bridge (`run_of_decode`), the specification side (`foldl_stepN`, `ofNat_TN`),
-  and — SMGo/Proofs/ISAValRoundL.lean — the round lemma for EVERY dword lane at every vector length
-  (`laneJ_gfAffine`, `laneJ_sbox`, `round_specL`), the 32-round invariant (`readyL_rounds`) and the fact that the
-  544 middle instructions of each wide listing are these rounds (`wide_kernels_rounds`).
-  What is missing is the prologue/epilogue of the wide kernels: VBROADCASTI32X4 of `Shuffle<>`, four (two for X2)
-  vector loads, `rev32` on each 128-bit lane (`x_rev32` is for one lane), and the 4×4 dword transposes built from
-  VPUNPCK{L,H}DQ / VPUNPCK{L,H}QDQ per 128-bit lane (`x_unpck*` are for one lane), giving
-  "dword 4l+m of state register k = word k of block (vl/16)·m+l" — and back, with four stores.
+  The wide kernels.  The same statement for the listings of cryptoBlockAsmX2 / X4 / X8 / X16 is proved in
+  SMGo/Proofs/ISAValWideSpec.lean (`kernelX4_eq_spec`, `kernelX8_eq_spec`, `kernelX16_eq_spec`: one scheme `wideCode vl`
+  at vector length 16/32/64) and SMGo/Proofs/ISAValWideX2Spec.lean (`kernelX2_eq_spec`), restated in Props/C05.lean.
+  Ingredients: the round lemma for EVERY dword lane at every vector length (ISAValRoundL: `round_specL`,
+  `readyL_rounds`), the dword view of VPUNPCK{L,H}DQ / VPUNPCK{L,H}QDQ and of `rev32` on every 128-bit lane
+  (ISAValWideLanes, ISAValWideRev), the 4×4 transposition (ISAValWideTranspose: `transpose_spec`), prologue and
+  epilogue (ISAValWidePro: `wpro_spec` — "dword 4l+m of state register k = word k of block (vl/16)·m+l";
+  ISAValWideEpi: `wepi_spec`), the per-block link to the specification (`encQ_eq_spec`).
+  EXACT GAP that remains for X2/X4/X8/X16: only the call with `dst` and `src` DISJOINT buffers of exactly n·16 bytes
+  is proved (the in-place call `dst == src` is proved for cryptoBlockAsm only; for the wide kernels it is covered by
+  the harness, which runs them three-way on every check).
 -/
 
 #print axioms SMGo.Proofs.ISAVal.kernelX1_eq_spec
